@@ -14,6 +14,11 @@ or on the spawner's originals (`M`), addressed by a path `<capture>.<slot>.<slot
   `T set <path> <slot> <int>` | `T push <path> <int>` | `T pushv <path> <value>` (a fresh value built in the
   acting side's heap) | `T show <path>` | `T len <path>` (same with `M`).
 Answer: the shown renderings joined by `;`, then ` owned` / ` shared`.
+
+`heapsend <values> | <ops>`: the writer's values (thread 1) and one stream of ops: `W <path>` = ChannelWrite of the
+writer's value at <path> (a snapshot of the heaps as they are NOW), `R` = ChannelRead by thread 2 of the oldest
+unread message (rebuilt on thread 2's heap; the received values are the `T` roots, in order of reading), and the
+`M …` / `T …` ops above.  Answer: the shown renderings joined by `;`.
 -/
 namespace Abra.Drv.HeapDrv
 open Abra.Heap
@@ -309,6 +314,43 @@ def splitOps (ws : List String) : List (List String) :=
       if w = ";" then [] :: acc else match acc with
         | cur :: rest => (cur ++ [w]) :: rest
         | [] => [[w]]) [[]]).reverse.filter (!·.isEmpty)
+
+/-- ops of `heapsend`: heaps, queue of messages (heaps at write time, written value), values received -/
+def sendOps (orig : List Val) : List (List String) → Heaps → List (Heaps × Val) → List Val → List String →
+    Option (List String)
+  | [], _, _, _, shown => some shown
+  | op :: ops, H, queue, recv, shown =>
+    match op with
+    | ["W", p] =>
+      match parsePath p with
+      | some path => match resolve H orig path with
+        | some v => sendOps orig ops H (queue ++ [(H, v)]) recv shown
+        | none => none
+      | none => none
+    | ["R"] =>
+      match queue with
+      | (Hw, v) :: rest =>
+        match chanReceive 64 Hw H 2 v with
+        | some (v', H') => sendOps orig ops H' rest (recv ++ [v']) shown
+        | none => none
+      | [] => none
+    | _ =>
+      match aliasOp orig recv H shown op with
+      | some (H', shown') => sendOps orig ops H' queue recv shown'
+      | none => none
+
+def handleHeapSend (ws : List String) : String :=
+  let capWords := ws.takeWhile (· ≠ "|")
+  let opWords := (ws.dropWhile (· ≠ "|")).drop 1
+  match parseVals 50 (" ".intercalate capWords).toList with
+  | some svs =>
+    match buildLs 1 svs { H := fun _ => [], labs := [] } with
+    | some (caps, st) =>
+      match sendOps caps (splitOps opWords) st.H [] [] [] with
+      | some shown => ";".intercalate shown
+      | none => "bad-op"
+    | none => "bad-label"
+  | none => "bad-op"
 
 def handleHeapAlias (ws : List String) : String :=
   let capWords := ws.takeWhile (· ≠ "|")
